@@ -329,13 +329,13 @@ func H_C07_Shared(shape int) {
 }
 
 // three goroutines (thorough tier): triples over the related models
-var c07Triples = [][3]int{{0, 1, 2}, {1, 0, 3}, {4, 1, 0}, {3, 2, 1}, {9, 10, 11}, {10, 13, 9}, {6, 7, 8}, {0, 7, 10}}
+var c07Triples = [][3]int{{0, 1, 1}, {0, 1, 2}, {1, 0, 3}, {3, 1, 1}, {4, 1, 0}, {3, 2, 1}, {9, 10, 11}, {10, 13, 9}, {6, 7, 8}, {0, 7, 10}}
 
 func N_C07_Three(tier int) int {
 	if tier > 0 {
 		return len(c07Triples)
 	}
-	return 2
+	return 3
 }
 
 func H_C07_Three(shape int) {
